@@ -42,13 +42,16 @@ static struct {
 	 * has finished changing its queues); later ones may or may not be seen */
 	uint16_t ra_seq, last_write_seq, pass_seq; uint16_t ra_first_seq[NFIB];
 	uint8_t ra_inpass[NFIB];	/* requests accepted since the current pass began */
+	uint8_t racall_f[8], disp_during[8];	/* per interrupt-side actor: the fibre (+1) its fibre_run_atomic call in progress names / that fibre
+					 * began a dispatch while the call was in progress (the request may already be consumed) */
 	uint8_t ra_ev;			/* how many of the pending requests for H were posted by fibre_eventq_send rather than by a caller */
 	uint16_t evseq, ev_cseq[4], ev_sseq[4], ev_begin[8];	/* when each slot was claimed / its send returned, on one counter */
 } G;
 static void on_plain_write(int ctx, const char *region, size_t off)
 {
-	(void)off;
-	if (ctx == 0 && G.in_pass && !strcmp(region, "kernel")) G.last_write_seq = G.ra_seq;
+	/* only writes to what decides runnability count: a field a later version adds for book-keeping (and writes after its
+	 * final check) says nothing about where that check is */
+	if (ctx == 0 && G.in_pass && !strcmp(region, "kernel") && c6_kernel_sched_field(off)) G.last_write_seq = G.ra_seq;
 }
 static void clamp_ra_ev(void) { if (G.ra_ev > G.ra[F_H]) G.ra_ev = G.ra[F_H]; }
 static uint64_t n_ra_ok, n_ra_refused, n_ev_ok, n_ev_refused_claim, n_ev_send_false, n_dispatch, n_events_seen, n_wake_checked, n_wake_lenient, foreign;
@@ -78,6 +81,7 @@ void orc_dispatch(int f, int entered)
 	if (!G.in_pass) report(OWN1, "dispatch-outside-pass", "body of %s runs outside fibre_scheduler_next", fname[f]);
 	if (G.dispatched >= 0) report(OWN1, "multi-dispatch", "two fibre bodies (%s and %s) run in one scheduling pass", fname[G.dispatched], fname[f]);
 	G.dispatched = (int8_t)f;
+	for (int a = 0; a < 8; a++) if (G.racall_f[a] == f + 1) G.disp_during[a] = 1;
 	/* A request for this very fibre that was accepted during this pass may have come before or after the drain that
 	 * precedes the dispatch (wherever the code has a point at which an interrupt can land): it is either consumed by
 	 * this dispatch or still queued - both are fine. Requests accepted before the pass began have been drained. */
@@ -160,6 +164,8 @@ void orc_main_call(int act, int begin, int result)
 		break;
 	case MA_KILL_H: case MA_KILL_Y: case MA_KILL_Z:
 		if (!C6.threads) for (int g = 0; g < NFIB; g++) if (G.ra_at_call_begin[g] && G.ra[g]) { uint8_t d = G.ra_at_call_begin[g] < G.ra[g] ? G.ra_at_call_begin[g] : G.ra[g]; G.ra[g] -= d; G.reason[g] |= R_RUN; }
+		/* a fibre_run_atomic(f) call that is still in progress may already have posted its request: the kill may withdraw it */
+		for (int a = 0; a < 8; a++) if (G.racall_f[a] == f + 1) G.disp_during[a] = 1;
 		/* withdrawn: what was pending when the call was made; a request that raced with the call may or may not survive */
 		G.reason[f] &= (uint8_t)~R_RUN;
 		if (G.ra[f]) { G.may[f] = 1; G.ra[f] = 0; }
@@ -177,10 +183,16 @@ void orc_main_call(int act, int begin, int result)
 		break;
 	}
 }
-void orc_ra(int f, bool ok)
+void orc_ra_begin(int f, int who) { G.racall_f[who & 7] = (uint8_t)(f + 1); G.disp_during[who & 7] = 0; }
+void orc_ra(int f, bool ok, int who)
 {
 	clamp_ra_ev();
 	vs_trace("interrupt side: fibre_run_atomic(%s) -> %d", fname[f], ok);
+	int during = G.disp_during[who & 7];
+	G.racall_f[who & 7] = 0; G.disp_during[who & 7] = 0;
+	/* the fibre began a dispatch between the call and its return (free threads, or any code with a scheduling point after
+	 * the request is posted): that dispatch may be the one the request caused - permission, no further obligation */
+	if (ok && during) { n_ra_ok++; G.may[f] = 1; return; }
 	if (ok) { n_ra_ok++; G.ra_seq++; if (!G.ra[f]) G.ra_first_seq[f] = G.ra_seq; if (G.ra[f] < 200) G.ra[f]++; if (G.in_pass) G.ra_inpass[f] = 1; if (C6.threads) G.sticky[f] = 1; } else n_ra_refused++;
 }
 void orc_ev_claim_begin(int who) { G.ev_begin[who & 7] = ++G.evseq; }	/* stamped BEFORE the call: the claim happened no earlier */
@@ -218,8 +230,15 @@ int orc_more_settle(void)
 static void scn_init(void)
 {
 	memset(&G, 0, sizeof(G)); G.dispatched = -1;
+	/* every static of the scenario unit - fibre.c's own and whatever a later version adds - starts each execution from the
+	 * image the program started with (the unit is built with objs_lib: its writable sections are the vx_lib image) */
+	vx_lib_reset();
 	c6_reset();
 	c6_register_regions();
+	/* ... and is shared memory for the race detector and the state hash; the regions registered above by name come first in
+	 * the lookup, this one catches what is not named */
+	if (vx_lib_dsz()) vs_region(__start_vxlibdata, vx_lib_dsz(), VS_SHARED, "unit-statics(data)");
+	if (vx_lib_bsz()) vs_region(__start_vxlibbss, vx_lib_bsz(), VS_SHARED, "unit-statics");
 	vs_region(&G, sizeof(G), VS_GHOST, "ghost");
 	for (int i = 0; i < C6.prefill_aq % 10; i++) G.ra[i == 0 && C6.prefill_aq >= 10 ? F_Z : F_Y]++;
 	vs_plain_write_hook = on_plain_write;
@@ -334,6 +353,11 @@ static void enumerate(void)
 		c.hk[0] = HK_RA_H; c.hk[1] = HK_RA_H; c.prefill_aq = 17; cfgs[ncfg++] = c;
 		c.hk[0] = HK_RA_H; c.hk[1] = HK_EV1; c.prefill_aq = 17; cfgs[ncfg++] = c;
 		c.hk[0] = HK_RA_Y; c.hk[1] = HK_RA_H; c.prefill_aq = 17; cfgs[ncfg++] = c;
+		/* two free-running interrupt-side threads that are both refused (full atomic run queue / event queue of depth 1) */
+		{ c06_cfg t = c; t.nest = 0; t.threads = 1; t.bound = 2; t.nh = 2;
+		  t.hk[0] = HK_RA_Z; t.hk[1] = HK_RA_Y; t.prefill_aq = 8; t.evq_depth = 2; cfgs[ncfg++] = t;
+		  t.hk[0] = HK_EV1; t.hk[1] = HK_EV2; t.prefill_aq = 8; cfgs[ncfg++] = t;
+		  t.hk[0] = HK_EV1; t.hk[1] = HK_EV2; t.prefill_aq = 0; t.evq_depth = 1; cfgs[ncfg++] = t; }
 		c.nh = 1; c.nest = 1;
 		c.hk[0] = HK_EV1; c.prefill_aq = 8; cfgs[ncfg++] = c;
 		c.hk[0] = HK_RA_Z; c.prefill_aq = 8; cfgs[ncfg++] = c;
